@@ -45,6 +45,10 @@ func runAnything(c *CaseCtx, checkState bool, class string, merge bool) {
 			}
 		}
 	}
+	resize := checkState && !merge && c.Case%8 == 3
+	if resize {
+		class += "-resized"
+	}
 	nReopen := 2 + r.Intn(3)
 	ntx := 20 + r.Intn(tier(c.Tier, 40, 100))
 	closed := false
@@ -67,6 +71,14 @@ func runAnything(c *CaseCtx, checkState bool, class string, merge bool) {
 		}
 		closed = true
 		c.Stat("reopens", 1)
+		if resize {
+			// the application changes SegmentSize between runs (a configuration change): every record written under the
+			// old size - also in a last segment that is now longer than a whole segment may be - must still be there
+			cfg.Seg = 120 + r.Int63n(681)
+			g.Cfg = cfg
+			c.Log("SegmentSize is now %d", cfg.Seg)
+			c.Stat("reopens_with_another_segment_size", 1)
+		}
 		db, err = openNoPanic(cfg.Options(dir))
 		if err != nil {
 			c.Violate("open-failed:"+errClass(err.Error()), class, fmt.Sprintf("Open(%s) failed after a clean Close following %d transactions: %v", cfg, i+1, err))
